@@ -32,7 +32,7 @@ MONITORS = ["detection", "loaded_content", "mutate_output", "mutate_backup", "in
             "trace_write_opens", "clash_refused_before_io", "second_mutate_idempotent", "decode_error"]
 REQUIRED = ["detected_utf-8", "detected_cp1252", "detected_cp932", "detected_cp949", "undecodable", "custom_try_encodings",
             "explicit_encoding", "native", "memory", "backup_and_output", "valid_under_several", "edit_changes_chart_in_place",
-            "same_path_opened_twice_different_lists", "multibyte_char_straddles_1024", "output_and_backup_equal_input"]
+            "same_path_opened_twice_different_lists", "multibyte_char_straddles_1024", "output_and_backup_equal_input", "no_song_level_property"]
 
 DEFAULT = ["utf-8", "cp1252", "cp932", "cp949"]
 SAMPLES = {
@@ -86,6 +86,13 @@ def gen_content(rng, ext):
         else:
             lines.append(f"#NOTES:{nl}     dance-single:{nl}     {_esc(pick())}:{nl}     Hard:{nl}     9:{nl}     0,0:{nl}0000{nl}0001{nl}1000{nl}0000{nl};")
     text = nl.join(lines) + nl
+    r = rng.random()
+    if r < 0.04:
+        text = ""                                                   # an empty file
+    elif r < 0.08:
+        text = f"// {pick()}{nl}{nl}"                              # comments and blank lines only
+    elif r < 0.14 and any(l.startswith(("#NOTES", "#NOTEDATA")) for l in lines):
+        text = nl.join(l for l in lines if l.startswith(("#NOTES", "#NOTEDATA"))) + nl   # charts only
     return enc_w, text
 
 
@@ -312,6 +319,8 @@ def check(ctx, case):
         if want[0] != "ok":
             ctx.skip("decoded text is not valid MSD (mojibake): the loader's error is the expected outcome; no mutate")
             return
+        if not want[2][0]:
+            ctx.feat("no_song_level_property")
         ctx.feat("detected_" + want_enc)
 
         # ---- mutate
